@@ -153,6 +153,7 @@ class RandSpy:
     def __init__(self):
         self.real = np.random.rand
         self.calls = []
+        self.latent_us = []
         self.tag = lambda: None
 
     def __call__(self, *a):
@@ -160,6 +161,8 @@ class RandSpy:
         f = sys._getframe(1)
         if f.f_code.co_name == "populate":
             self.calls.append((self.tag(), f.f_lineno, np.array(r, dtype=float).ravel().copy()))
+        elif f.f_code.co_name == "sample" and f.f_code.co_filename.endswith("sampling.py"):
+            self.latent_us.append(np.array(r, dtype=float).ravel().copy())     # NDimensionalTruncatedGaussian.sample
         return r
 
 
@@ -178,8 +181,9 @@ def run_flow_case(c):
     kw = dict(poolsize=c["N"], drawsize=c["drawsize"], output=tmp, plot=False, latent_prior=c["latent"],
               accumulate_weights=c["acc"], truncate_log_q=c["trunc"], update_poolsize=False,
               flow_config={"n_blocks": 2, "n_neurons": 4}, training_config={"max_epochs": 15, "patience": 5},
-              constant_volume_mode=c["cvm"], fixed_radius=False if c["cvm"] else c["radius"],
-              expansion_fraction=c.get("expansion"))
+              constant_volume_mode=c["cvm"],
+              fixed_radius=False if (c["cvm"] or c.get("radius_mode", "fixed") != "fixed") else c["radius"],
+              expansion_fraction=c.get("expansion"), compute_radius_with_all=c.get("radius_all", False))
     if cls is AugmentedFlowProposal:
         kw["augment_dims"] = 1
     try:
@@ -200,12 +204,14 @@ def run_flow_case(c):
     flow = p.flow
     real_sal = flow.sample_and_log_prob
     calls = []
+    zs = []
 
     def sal(*a, **k):
         if len(calls) >= c["max_batches"]:
             raise Cap()
         x, lq = real_sal(*a, **k)
         calls.append((np.array(x, dtype=float).copy(), np.array(lq, dtype=float).copy()))
+        zs.append(np.array(k.get("z", a[1] if len(a) > 1 else np.zeros((0, 1))), dtype=float).copy())
         return x, lq
 
     flow.sample_and_log_prob = sal
@@ -214,19 +220,30 @@ def run_flow_case(c):
     lo_hi = loop_lines(FlowProposal.populate)
     worst = train_x[0].copy()
     max_samples = c.get("max_samples")
-    if max_samples is not None:
+    radii = c.get("radii") if c.get("radius_mode") == "explicit" else None
+    popno = [0]
+    if max_samples is not None or radii:
         real_pop = p.populate
 
         def pop(*a, **k):
-            k["max_samples"] = max_samples
+            if max_samples is not None:
+                k["max_samples"] = max_samples
+            if radii:
+                k["r"] = radii[popno[0] % len(radii)]
             return real_pop(*a, **k)
 
         p.populate = pop
     np.random.rand = spy
     try:
-        for _ in range(c["npop"]):
+        for ipop in range(c["npop"]):
+            popno[0] = ipop
+            if c.get("worst_idx"):
+                # the worst live point changes from one population to the next (and with it the latent radius)
+                worst = train_x[c["worst_idx"][ipop % len(c["worst_idx"])]].copy()
             del calls[:]
+            del zs[:]
             del spy.calls[:]
+            del spy.latent_us[:]
             model.rec = []
             rec = {}
             try:
@@ -271,6 +288,28 @@ def run_flow_case(c):
             rec["final_us"] = [fx(np.log(v)) for v in post[-1]] if post else []
             rec["n_rand_calls"] = len(spy.calls)
             rec["dup"] = dup
+            # ---- latent contour of THIS population: radii of all latent points handed to the flow -----------------
+            try:
+                rec["r"], rec["fuzz"] = float(p.r), float(p.fuzz)
+            except Exception:
+                rec["r"], rec["fuzz"] = None, None
+            rad = [np.sqrt(np.sum(z ** 2, axis=1)) for z in zs if z.size]
+            rec["z_max_radius"] = float(max(r_.max() for r_ in rad)) if rad else 0.0
+            rec["n_latent"] = int(sum(len(r_) for r_ in rad))
+            if c["latent"] == "truncated_gaussian" and rec["r"] is not None and len(spy.latent_us) == len(rad) and rad:
+                # the sampler is  |z| = sqrt(2 gammaincinv(d/2, u_max u)),  u_max = gammainc(d/2, (r fuzz)^2 / 2):
+                # recover the truncation each latent point was drawn with from its radius and its uniform
+                from scipy.special import gammainc
+                a_ = 0.5 * p.dims
+                want = float(gammainc(a_, 0.5 * (rec["r"] * rec["fuzz"]) ** 2))
+                u_all, g_all = np.concatenate(spy.latent_us), gammainc(a_, 0.5 * np.concatenate(rad) ** 2)
+                ok_u = u_all > 1e-3
+                if len(u_all) == len(g_all) and ok_u.any():
+                    used = g_all[ok_u] / u_all[ok_u]
+                    rec["umax_used"] = [float(used.min()), float(used.max())]
+                    rec["umax_want"] = want
+            if first is not None or rec.get("empty_pool"):
+                pass
             if c["trunc"]:
                 with np.errstate(all="ignore"):
                     rec["minlq"] = fx(p.forward_pass(p.training_data)[1].min())
